@@ -245,7 +245,7 @@ def case_workload(r, obs):
         out = os.path.join(scratch, "out.json")
         env = dict(os.environ)
         env.update({"PYTHONPATH": os.pathsep.join([REPO, HERE]), "LENA_REPO": REPO,
-                    "PYTHONHASHSEED": "0", "PYTHONDONTWRITEBYTECODE": "1"})
+                    "PYTHONHASHSEED": "0", "PYTHONDONTWRITEBYTECODE": "1", "RV_PYMODE": ""})
         p = subprocess.run([sys.executable, "-B", "-m", "rv.worker", r["pid"], "quick", "0",
                             str(r["shard"]), str(r["shards"]), out], env=env, cwd=HERE,
                            capture_output=True, text=True, timeout=CHILD_TIMEOUT_S * 4)
